@@ -96,6 +96,8 @@ impl WalIndex {
         // The rename is a directory operation: without syncing the directory a power loss can
         // bring the previous index file back, i.e. forget consumption that was acknowledged.
         if let Some(dir) = std::path::Path::new(&self.path).parent() {
+            #[cfg(walrus_verif)]
+            crate::wal::verif::io_gate("dir_fsync", &dir.to_string_lossy(), "")?;
             fs::File::open(dir)?.sync_all()?;
         }
         Ok(())
